@@ -1,0 +1,927 @@
+//! Verification harness (feature `verif`, property C10): drives the real conductor executor
+//! from an op script (`$VERIF_IN`) and writes canonical observation lines to `$VERIF_OUT`.
+//!
+//! Three kinds of cases:
+//!
+//! * `case cache <next>`: the real [`BlockCache`] (`ins h | pop | drop h | next`).
+//! * `case fn`: the pure decision functions (`sef`, `s2r`, `sess`).
+//! * `case sys <mode> <sstart> <rstart> <look> <firm> <soft> <base>`: the real
+//!   `Initialized::run_event_loop` (with its biased `select!`, `is_spread_too_large`,
+//!   `execute_soft`, `execute_firm`, `update_commitment_state`) on the channels made by
+//!   `create_block_channels`, a real [`Client`] talking gRPC to an in-process execution-API
+//!   server that records every RPC, real `BlockCache`s for the two readers and a real
+//!   `StateReceiver` for what the readers observe. The reader glue (insert on fetch,
+//!   `drop_obsolete` on a state change, `pop` -> `try_send`/enqueue) is the harness' copy of the
+//!   three corresponding `select!` arms of the two readers. `run` is made deterministic by a
+//!   barrier: a finished dummy reader task is put into `reader_tasks`; because the `select!` is
+//!   biased, its exit is only handled after both channels have been drained as far as the
+//!   executor is willing to drain them.
+use std::{
+    collections::VecDeque,
+    fmt::Write as _,
+    panic::{
+        catch_unwind,
+        AssertUnwindSafe,
+    },
+    sync::{
+        Arc,
+        Mutex,
+    },
+};
+
+use astria_core::{
+    generated::astria::execution::v2 as raw,
+    primitive::v1::RollupId,
+    protocol::test_utils::ConfigureSequencerBlock,
+    sequencerblock::v1::{
+        block::{
+            self,
+            FilteredSequencerBlock,
+            SequencerBlockHeader,
+        },
+        SequencerBlock,
+    },
+    Protobuf as _,
+};
+use futures::FutureExt as _;
+use sequencer_client::tendermint::block::Height as SequencerHeight;
+use tokio::sync::mpsc;
+use tokio_util::{
+    sync::CancellationToken,
+    task::JoinMap,
+};
+
+use super::{
+    create_block_channels,
+    should_execute_firm_block,
+    Channels,
+    Client,
+    Executor,
+    Initialized,
+    ReaderKind,
+};
+use crate::{
+    block_cache::{
+        BlockCache,
+        Error as CacheError,
+        GetSequencerHeight,
+    },
+    celestia::ReconstructedBlock,
+    config::CommitLevel,
+    metrics::Metrics,
+    state::{
+        self,
+        State,
+        StateReceiver,
+    },
+};
+
+const ROLLUP_ID: RollupId = RollupId::new([42; 32]);
+const SESSION_ID: &str = "verif_session";
+
+// ------------------------------------------------------------------------------------------
+// the recording execution-API server
+// ------------------------------------------------------------------------------------------
+
+#[derive(Default)]
+struct RollupState {
+    session: Option<raw::ExecutionSession>,
+    /// all pre-session blocks `g<n>` with `n <= presoft` exist
+    presoft: u64,
+    /// blocks executed in this session, oldest first: (number, hash)
+    executed: Vec<(u64, String)>,
+    serial: u64,
+    fault: Option<u64>,
+    log: Vec<String>,
+}
+
+impl RollupState {
+    fn find_hash(&self, hash: &str) -> Option<u64> {
+        if let Some((n, _)) = self.executed.iter().rev().find(|(_, h)| h == hash) {
+            return Some(*n);
+        }
+        let n: u64 = hash.strip_prefix('g')?.parse().ok()?;
+        (n <= self.presoft).then_some(n)
+    }
+
+    fn find_num(&self, number: u64) -> Option<String> {
+        if let Some((_, h)) = self.executed.iter().rev().find(|(n, _)| *n == number) {
+            return Some(h.clone());
+        }
+        (number <= self.presoft).then(|| format!("g{number}"))
+    }
+}
+
+#[derive(Default)]
+struct Rollup {
+    inner: Mutex<RollupState>,
+}
+
+fn timestamp() -> pbjson_types::Timestamp {
+    pbjson_types::Timestamp {
+        seconds: 1,
+        nanos: 1,
+    }
+}
+
+fn raw_meta(number: u64, hash: &str) -> raw::ExecutedBlockMetadata {
+    raw::ExecutedBlockMetadata {
+        number,
+        hash: hash.to_string(),
+        parent_hash: String::new(),
+        timestamp: Some(timestamp()),
+        sequencer_block_hash: String::new(),
+    }
+}
+
+#[tonic::async_trait]
+impl raw::execution_service_server::ExecutionService for Rollup {
+    async fn create_execution_session(
+        self: Arc<Self>,
+        _request: tonic::Request<raw::CreateExecutionSessionRequest>,
+    ) -> Result<tonic::Response<raw::ExecutionSession>, tonic::Status> {
+        let st = self.inner.lock().unwrap();
+        st.session
+            .clone()
+            .map(tonic::Response::new)
+            .ok_or_else(|| tonic::Status::failed_precondition("no session"))
+    }
+
+    async fn get_executed_block_metadata(
+        self: Arc<Self>,
+        request: tonic::Request<raw::GetExecutedBlockMetadataRequest>,
+    ) -> Result<tonic::Response<raw::ExecutedBlockMetadata>, tonic::Status> {
+        let mut st = self.inner.lock().unwrap();
+        let number = match request.into_inner().identifier.and_then(|id| id.identifier) {
+            Some(raw::executed_block_identifier::Identifier::Number(n)) => n,
+            _ => return Err(tonic::Status::invalid_argument("only numbers supported")),
+        };
+        match st.find_num(number) {
+            Some(hash) => {
+                st.log.push(format!("rpc get n={number} hash={hash}"));
+                Ok(tonic::Response::new(raw_meta(number, &hash)))
+            }
+            None => {
+                st.log.push(format!("rpc get n={number} fail"));
+                Err(tonic::Status::failed_precondition("unknown block"))
+            }
+        }
+    }
+
+    async fn execute_block(
+        self: Arc<Self>,
+        request: tonic::Request<raw::ExecuteBlockRequest>,
+    ) -> Result<tonic::Response<raw::ExecuteBlockResponse>, tonic::Status> {
+        let mut st = self.inner.lock().unwrap();
+        let req = request.into_inner();
+        let height = u64::from_str_radix(req.sequencer_block_hash.get(..16).unwrap_or("x"), 16)
+            .map_err(|_| tonic::Status::invalid_argument("bad sequencer block hash"))?;
+        let parent = req.parent_hash;
+        let fault = st.fault.take().unwrap_or(0);
+        let number = st
+            .find_hash(&parent)
+            .and_then(|n| n.checked_add(1))
+            .and_then(|n| n.checked_add(fault));
+        let Some(number) = number else {
+            st.log
+                .push(format!("rpc exec parent={parent} h={height} fail"));
+            return Err(tonic::Status::failed_precondition("cannot execute on this parent"));
+        };
+        let serial = st.serial;
+        st.serial += 1;
+        let hash = format!("n{number}h{height}e{serial}");
+        st.executed.push((number, hash.clone()));
+        st.log.push(format!(
+            "rpc exec parent={parent} h={height} num={number} hash={hash} txs={}",
+            req.transactions.len()
+        ));
+        Ok(tonic::Response::new(raw::ExecuteBlockResponse {
+            executed_block_metadata: Some(raw::ExecutedBlockMetadata {
+                parent_hash: parent,
+                sequencer_block_hash: req.sequencer_block_hash,
+                ..raw_meta(number, &hash)
+            }),
+        }))
+    }
+
+    async fn update_commitment_state(
+        self: Arc<Self>,
+        request: tonic::Request<raw::UpdateCommitmentStateRequest>,
+    ) -> Result<tonic::Response<raw::CommitmentState>, tonic::Status> {
+        let mut st = self.inner.lock().unwrap();
+        let Some(cs) = request.into_inner().commitment_state else {
+            return Err(tonic::Status::invalid_argument("no commitment state"));
+        };
+        let firm = cs.firm_executed_block_metadata.clone().unwrap_or_default();
+        let soft = cs.soft_executed_block_metadata.clone().unwrap_or_default();
+        st.log.push(format!(
+            "rpc update firm={}:{} soft={}:{} base={}",
+            firm.number, firm.hash, soft.number, soft.hash, cs.lowest_celestia_search_height
+        ));
+        Ok(tonic::Response::new(cs))
+    }
+}
+
+// ------------------------------------------------------------------------------------------
+// blocks
+// ------------------------------------------------------------------------------------------
+
+struct BlockFactory {
+    template: SequencerBlock,
+}
+
+fn block_hash(height: u64) -> block::Hash {
+    let mut bytes = [0u8; 32];
+    bytes[..8].copy_from_slice(&height.to_be_bytes());
+    bytes[31] = 1;
+    block::Hash::new(bytes)
+}
+
+impl BlockFactory {
+    fn new() -> Self {
+        let template = ConfigureSequencerBlock {
+            height: 1,
+            sequence_data: vec![(ROLLUP_ID, b"verif".to_vec())],
+            signing_key: Some(astria_core::crypto::SigningKey::from([7u8; 32])),
+            with_extended_commit_info: false,
+            ..Default::default()
+        }
+        .make();
+        Self {
+            template,
+        }
+    }
+
+    fn header(&self, height: u64) -> Option<SequencerBlockHeader> {
+        let mut parts = self.template.header().clone().into_parts();
+        parts.height = SequencerHeight::try_from(height).ok()?;
+        Some(SequencerBlockHeader::unchecked_from_parts(parts))
+    }
+
+    fn soft(&self, height: u64) -> Option<FilteredSequencerBlock> {
+        let mut parts = self.template.clone().into_parts();
+        parts.header = self.header(height)?;
+        parts.block_hash = block_hash(height);
+        Some(SequencerBlock::unchecked_from_parts(parts).into_filtered_block([ROLLUP_ID]))
+    }
+
+    fn firm(&self, height: u64, celestia_height: u64) -> Option<ReconstructedBlock> {
+        let transactions = self
+            .template
+            .rollup_transactions()
+            .get(&ROLLUP_ID)
+            .map(|txs| txs.transactions().to_vec())
+            .unwrap_or_default();
+        Some(ReconstructedBlock {
+            celestia_height,
+            block_hash: block_hash(height),
+            header: self.header(height)?,
+            transactions,
+            extended_commit_info: None,
+        })
+    }
+}
+
+// ------------------------------------------------------------------------------------------
+// unit level
+// ------------------------------------------------------------------------------------------
+
+#[derive(Debug)]
+struct Dummy(u64);
+
+impl GetSequencerHeight for Dummy {
+    fn get_height(&self) -> SequencerHeight {
+        SequencerHeight::try_from(self.0).unwrap()
+    }
+}
+
+fn insert_class(res: Result<(), CacheError>) -> &'static str {
+    match res {
+        Ok(()) => "ok",
+        Err(CacheError::Old {
+            ..
+        }) => "old",
+        Err(CacheError::Occupied {
+            ..
+        }) => "occupied",
+        Err(CacheError::ZeroHeightsNotSupported) => "zero",
+    }
+}
+
+fn parse_mode(s: &str) -> CommitLevel {
+    match s {
+        "soft" => CommitLevel::SoftOnly,
+        "firm" => CommitLevel::FirmOnly,
+        "both" => CommitLevel::SoftAndFirm,
+        other => panic!("unknown mode {other}"),
+    }
+}
+
+fn num(s: &str) -> u64 {
+    s.parse().unwrap_or_else(|_| panic!("bad number {s}"))
+}
+
+fn make_raw_session(
+    sstart: u64,
+    rstart: u64,
+    look: u64,
+    firm: u64,
+    soft: u64,
+    base: u64,
+) -> raw::ExecutionSession {
+    raw::ExecutionSession {
+        session_id: SESSION_ID.to_string(),
+        execution_session_parameters: Some(raw::ExecutionSessionParameters {
+            rollup_id: Some(ROLLUP_ID.into_raw()),
+            rollup_start_block_number: rstart,
+            rollup_end_block_number: 0,
+            sequencer_chain_id: "verif-sequencer".to_string(),
+            sequencer_start_block_height: sstart,
+            celestia_chain_id: "verif-celestia".to_string(),
+            celestia_search_height_max_look_ahead: look,
+        }),
+        commitment_state: Some(raw::CommitmentState {
+            soft_executed_block_metadata: Some(raw_meta(soft, &format!("g{soft}"))),
+            firm_executed_block_metadata: Some(raw_meta(firm, &format!("g{firm}"))),
+            lowest_celestia_search_height: base,
+        }),
+    }
+}
+
+fn opt_height(f: impl FnOnce() -> SequencerHeight) -> String {
+    match catch_unwind(AssertUnwindSafe(f)) {
+        Ok(h) => h.value().to_string(),
+        Err(_) => "x".to_string(),
+    }
+}
+
+fn fn_op(toks: &[&str], out: &mut String) {
+    match toks[0] {
+        "sef" => {
+            let r = should_execute_firm_block(num(toks[1]), num(toks[2]), parse_mode(toks[3]));
+            writeln!(out, "sef {} {} {} -> {r}", toks[1], toks[2], toks[3]).unwrap();
+        }
+        "s2r" => {
+            let res = match SequencerHeight::try_from(num(toks[3])) {
+                Ok(h) => match state::try_map_sequencer_height_to_rollup_height(
+                    num(toks[1]),
+                    num(toks[2]),
+                    h,
+                ) {
+                    Ok(n) => n.to_string(),
+                    Err(_) => "err".to_string(),
+                },
+                Err(_) => "badheight".to_string(),
+            };
+            writeln!(out, "s2r {} {} {} -> {res}", toks[1], toks[2], toks[3]).unwrap();
+        }
+        "sess" => {
+            let mode = parse_mode(toks[1]);
+            let raw = make_raw_session(num(toks[2]), num(toks[3]), 1, num(toks[4]), num(toks[5]), 1);
+            let head = format!("sess {}", toks[1..].join(" "));
+            let session = match astria_core::execution::v2::ExecutionSession::try_from_raw(raw) {
+                Ok(s) => s,
+                Err(_) => {
+                    writeln!(out, "{head} -> err:session").unwrap();
+                    return;
+                }
+            };
+            match State::try_from_execution_session(&session, mode) {
+                Err(_) => writeln!(out, "{head} -> err:invalid_state").unwrap(),
+                Ok(st) => {
+                    let (tx, _rx) = state::channel(st);
+                    let nf = opt_height(|| tx.next_expected_firm_sequencer_height());
+                    let ns = opt_height(|| tx.next_expected_soft_sequencer_height());
+                    writeln!(out, "{head} -> ok nf={nf} ns={ns}").unwrap();
+                }
+            }
+        }
+        other => panic!("unknown fn op {other}"),
+    }
+}
+
+// ------------------------------------------------------------------------------------------
+// integrated level
+// ------------------------------------------------------------------------------------------
+
+struct Sys {
+    init: Initialized,
+    mode: CommitLevel,
+    rx: StateReceiver,
+    soft_tx: mpsc::Sender<FilteredSequencerBlock>,
+    firm_tx: mpsc::Sender<Box<ReconstructedBlock>>,
+    soft_cache: Option<BlockCache<FilteredSequencerBlock>>,
+    firm_cache: Option<BlockCache<ReconstructedBlock>>,
+    soft_enq: Option<FilteredSequencerBlock>,
+    firm_enq: Option<ReconstructedBlock>,
+    /// mirrors of what is in the two channels (heights), to report what a run consumed
+    soft_mirror: VecDeque<u64>,
+    firm_mirror: VecDeque<u64>,
+}
+
+fn chan_len<T>(tx: &mpsc::Sender<T>) -> usize {
+    tx.max_capacity() - tx.capacity()
+}
+
+fn classify_init_error(msg: &str) -> &'static str {
+    if msg.contains("failed converting raw response") {
+        "session"
+    } else if msg.contains("failed to construct initial state") {
+        "invalid_state"
+    } else {
+        "other"
+    }
+}
+
+fn classify_exec_error(msg: &str) -> &'static str {
+    if msg.contains("block received was out-of-order") {
+        "ooo"
+    } else if msg.contains("expected block at sequencer height") {
+        "firm_height"
+    } else if msg.contains("failed to map current block height to rollup number") {
+        "map"
+    } else if msg.contains("contract violated: current height cannot be incremented") {
+        "contract_max"
+    } else if msg.contains("execution API server violated contract") {
+        "contract"
+    } else if msg.contains("failed constructing commitment state") {
+        "firm_gt_soft"
+    } else if msg.contains("failed updating internal state tracking rollup state") {
+        "invalid_state"
+    } else if msg.contains("failed to run execute_block RPC")
+        || msg.contains("failed updating remote commitment state")
+        || msg.contains("from rollup")
+    {
+        "rpc"
+    } else {
+        "other"
+    }
+}
+
+impl Sys {
+    fn state_line(&self) -> String {
+        let st = &self.init.state;
+        let mut pend: Vec<u64> = self
+            .init
+            .blocks_pending_finalization
+            .keys()
+            .copied()
+            .collect();
+        pend.sort_unstable();
+        let pend: Vec<String> = pend.iter().map(ToString::to_string).collect();
+        format!(
+            "st firm={}:{} soft={}:{} base={} nf={} ns={} pend={} qs={} qf={}",
+            st.firm_number(),
+            st.firm_hash(),
+            st.soft_number(),
+            st.soft_hash(),
+            st.lowest_celestia_search_height(),
+            opt_height(|| st.next_expected_firm_sequencer_height()),
+            opt_height(|| st.next_expected_soft_sequencer_height()),
+            pend.join(";"),
+            chan_len(&self.soft_tx),
+            chan_len(&self.firm_tx),
+        )
+    }
+}
+
+async fn sys_init(
+    toks: &[&str],
+    rollup: &Arc<Rollup>,
+    uri: &str,
+    metrics: &'static Metrics,
+    out: &mut String,
+) -> Option<Sys> {
+    let mode = parse_mode(toks[2]);
+    let (sstart, rstart, look, firm, soft, base) = (
+        num(toks[3]),
+        num(toks[4]),
+        num(toks[5]),
+        num(toks[6]),
+        num(toks[7]),
+        num(toks[8]),
+    );
+    *rollup.inner.lock().unwrap() = RollupState {
+        session: Some(make_raw_session(sstart, rstart, look, firm, soft, base)),
+        presoft: soft,
+        ..RollupState::default()
+    };
+    let config = crate::Config {
+        celestia_block_time_ms: 12000,
+        celestia_node_http_url: "http://127.0.0.1:1".into(),
+        no_celestia_auth: true,
+        celestia_bearer_token: String::new(),
+        sequencer_grpc_url: "http://127.0.0.1:1".into(),
+        sequencer_cometbft_url: "http://127.0.0.1:1".into(),
+        sequencer_block_time_ms: 2000,
+        sequencer_requests_per_second: 500,
+        execution_rpc_url: uri.to_string(),
+        log: "off".into(),
+        execution_commit_level: mode,
+        force_stdout: false,
+        no_otel: true,
+        no_metrics: true,
+        metrics_http_listener_addr: String::new(),
+    };
+    let executor = Executor {
+        config: config.clone(),
+        client: Client::connect_lazy(uri).unwrap(),
+        shutdown: CancellationToken::new(),
+        metrics,
+    };
+    let state = match AssertUnwindSafe(executor.create_initial_node_state())
+        .catch_unwind()
+        .await
+    {
+        Err(_) => {
+            writeln!(out, "init panic").unwrap();
+            return None;
+        }
+        Ok(Err(err)) => {
+            writeln!(out, "init err:{}", classify_init_error(&format!("{err:#}"))).unwrap();
+            return None;
+        }
+        Ok(Ok(state)) => state,
+    };
+    let Channels {
+        firm_sender,
+        firm_receiver,
+        soft_sender,
+        soft_receiver,
+    } = match create_block_channels(mode, &state) {
+        Ok(ch) => ch,
+        Err(_) => {
+            writeln!(out, "init err:channels").unwrap();
+            return None;
+        }
+    };
+    let rx = state.subscribe();
+    // what the two readers do when they enter their run loops
+    let soft_cache = if mode.is_with_soft() {
+        catch_unwind(AssertUnwindSafe(|| rx.next_expected_soft_sequencer_height()))
+            .ok()
+            .and_then(|h| BlockCache::with_next_height(h).ok())
+    } else {
+        None
+    };
+    let firm_cache = if mode.is_with_firm() {
+        catch_unwind(AssertUnwindSafe(|| rx.next_expected_firm_sequencer_height()))
+            .ok()
+            .and_then(|h| BlockCache::with_next_height(h).ok())
+    } else {
+        None
+    };
+    let Executor {
+        config,
+        client,
+        shutdown,
+        metrics,
+    } = executor;
+    let init = Initialized {
+        config,
+        client,
+        firm_blocks: firm_receiver,
+        soft_blocks: soft_receiver,
+        shutdown,
+        state,
+        blocks_pending_finalization: std::collections::HashMap::new(),
+        metrics,
+        reader_tasks: JoinMap::new(),
+        reader_cancellation_token: CancellationToken::new(),
+    };
+    let sys = Sys {
+        init,
+        mode,
+        rx,
+        soft_tx: soft_sender,
+        firm_tx: firm_sender,
+        soft_cache,
+        firm_cache,
+        soft_enq: None,
+        firm_enq: None,
+        soft_mirror: VecDeque::new(),
+        firm_mirror: VecDeque::new(),
+    };
+    let show = |n: Option<u64>| n.map_or_else(|| "none".to_string(), |n| n.to_string());
+    writeln!(
+        out,
+        "init ok sc={} fc={} caps={} capf={}",
+        show(sys.soft_cache.as_ref().map(BlockCache::next_height_to_pop)),
+        show(sys.firm_cache.as_ref().map(BlockCache::next_height_to_pop)),
+        sys.soft_tx.max_capacity(),
+        sys.firm_tx.max_capacity(),
+    )
+    .unwrap();
+    writeln!(out, "{}", sys.state_line()).unwrap();
+    // the session RPC is not part of the observations
+    rollup.inner.lock().unwrap().log.clear();
+    Some(sys)
+}
+
+/// Runs the real event loop until the barrier task's exit is handled.  Returns the result class.
+async fn sys_run(sys: &mut Sys) -> String {
+    let kind = if sys.mode.is_with_firm() {
+        ReaderKind::Firm
+    } else {
+        ReaderKind::Soft
+    };
+    sys.init.reader_tasks.spawn(kind, async { Ok(()) });
+    match AssertUnwindSafe(sys.init.run_event_loop())
+        .catch_unwind()
+        .await
+    {
+        Err(_) => "panic".to_string(),
+        Ok(Ok(_)) => "exited".to_string(),
+        Ok(Err(err)) => {
+            let top = err.to_string();
+            if top.starts_with("task `") {
+                "ok".to_string()
+            } else {
+                format!("err:{}", classify_exec_error(&format!("{err:#}")))
+            }
+        }
+    }
+}
+
+async fn sys_op(
+    toks: &[&str],
+    sys: &mut Sys,
+    rollup: &Arc<Rollup>,
+    blocks: &BlockFactory,
+    out: &mut String,
+) -> bool {
+    let line = toks.join(" ");
+    let mut alive = true;
+    match toks[0] {
+        // soft reader: a block arrived from the sequencer stream
+        "sf" => match (&mut sys.soft_cache, blocks.soft(num(toks[1]))) {
+            (Some(cache), Some(block)) => {
+                let r = insert_class(cache.insert(block));
+                writeln!(out, "{line} -> {r}").unwrap();
+            }
+            (None, _) => writeln!(out, "{line} -> noreader").unwrap(),
+            (_, None) => writeln!(out, "{line} -> badheight").unwrap(),
+        },
+        // soft reader: rollup state changed (or is simply re-read)
+        "so" => match &mut sys.soft_cache {
+            Some(cache) => {
+                let rx = &sys.rx;
+                match catch_unwind(AssertUnwindSafe(|| rx.next_expected_soft_sequencer_height())) {
+                    Ok(h) => {
+                        cache.drop_obsolete(h);
+                        writeln!(out, "{line} -> v={} next={}", h.value(), cache.next_height_to_pop())
+                            .unwrap();
+                    }
+                    Err(_) => writeln!(out, "{line} -> panic").unwrap(),
+                }
+            }
+            None => writeln!(out, "{line} -> noreader").unwrap(),
+        },
+        // soft reader: forward the next block (only while nothing is enqueued)
+        "sp" => match &mut sys.soft_cache {
+            None => writeln!(out, "{line} -> noreader").unwrap(),
+            Some(_) if sys.soft_enq.is_some() => writeln!(out, "{line} -> blocked").unwrap(),
+            Some(cache) => match catch_unwind(AssertUnwindSafe(|| cache.pop())) {
+                Err(_) => writeln!(out, "{line} -> panic").unwrap(),
+                Ok(None) => writeln!(out, "{line} -> none").unwrap(),
+                Ok(Some(block)) => {
+                    let h = block.height().value();
+                    match sys.soft_tx.try_send(block) {
+                        Ok(()) => {
+                            sys.soft_mirror.push_back(h);
+                            writeln!(out, "{line} -> h={h} sent").unwrap();
+                        }
+                        Err(mpsc::error::TrySendError::Full(block)) => {
+                            sys.soft_enq = Some(block);
+                            writeln!(out, "{line} -> h={h} enq").unwrap();
+                        }
+                        Err(mpsc::error::TrySendError::Closed(_)) => {
+                            writeln!(out, "{line} -> h={h} closed").unwrap();
+                        }
+                    }
+                }
+            },
+        },
+        // soft reader: the enqueued send completes if there is capacity
+        "sq" => match sys.soft_enq.take() {
+            None => writeln!(out, "{line} -> none").unwrap(),
+            Some(block) => {
+                let h = block.height().value();
+                match sys.soft_tx.try_send(block) {
+                    Ok(()) => {
+                        sys.soft_mirror.push_back(h);
+                        writeln!(out, "{line} -> h={h} sent").unwrap();
+                    }
+                    Err(
+                        mpsc::error::TrySendError::Full(block)
+                        | mpsc::error::TrySendError::Closed(block),
+                    ) => {
+                        sys.soft_enq = Some(block);
+                        writeln!(out, "{line} -> h={h} full").unwrap();
+                    }
+                }
+            }
+        },
+        "ff" => match (&mut sys.firm_cache, blocks.firm(num(toks[1]), num(toks[2]))) {
+            (Some(cache), Some(block)) => {
+                let r = insert_class(cache.insert(block));
+                writeln!(out, "{line} -> {r}").unwrap();
+            }
+            (None, _) => writeln!(out, "{line} -> noreader").unwrap(),
+            (_, None) => writeln!(out, "{line} -> badheight").unwrap(),
+        },
+        "fp" => match &mut sys.firm_cache {
+            None => writeln!(out, "{line} -> noreader").unwrap(),
+            Some(_) if sys.firm_enq.is_some() => writeln!(out, "{line} -> blocked").unwrap(),
+            Some(cache) => match catch_unwind(AssertUnwindSafe(|| cache.pop())) {
+                Err(_) => writeln!(out, "{line} -> panic").unwrap(),
+                Ok(None) => writeln!(out, "{line} -> none").unwrap(),
+                Ok(Some(block)) => {
+                    let h = block.sequencer_height().value();
+                    match sys.firm_tx.try_send(Box::new(block)) {
+                        Ok(()) => {
+                            sys.firm_mirror.push_back(h);
+                            writeln!(out, "{line} -> h={h} sent").unwrap();
+                        }
+                        Err(mpsc::error::TrySendError::Full(block)) => {
+                            sys.firm_enq = Some(*block);
+                            writeln!(out, "{line} -> h={h} enq").unwrap();
+                        }
+                        Err(mpsc::error::TrySendError::Closed(_)) => {
+                            writeln!(out, "{line} -> h={h} closed").unwrap();
+                        }
+                    }
+                }
+            },
+        },
+        "fq" => match sys.firm_enq.take() {
+            None => writeln!(out, "{line} -> none").unwrap(),
+            Some(block) => {
+                let h = block.sequencer_height().value();
+                match sys.firm_tx.try_send(Box::new(block)) {
+                    Ok(()) => {
+                        sys.firm_mirror.push_back(h);
+                        writeln!(out, "{line} -> h={h} sent").unwrap();
+                    }
+                    Err(
+                        mpsc::error::TrySendError::Full(block)
+                        | mpsc::error::TrySendError::Closed(block),
+                    ) => {
+                        sys.firm_enq = Some(*block);
+                        writeln!(out, "{line} -> h={h} full").unwrap();
+                    }
+                }
+            }
+        },
+        // a delivery that bypasses the reader's sequential cache
+        "ds" => match blocks.soft(num(toks[1])) {
+            None => writeln!(out, "{line} -> badheight").unwrap(),
+            Some(block) => match sys.soft_tx.try_send(block) {
+                Ok(()) => {
+                    sys.soft_mirror.push_back(num(toks[1]));
+                    writeln!(out, "{line} -> sent").unwrap();
+                }
+                Err(_) => writeln!(out, "{line} -> full").unwrap(),
+            },
+        },
+        "df" => match blocks.firm(num(toks[1]), num(toks[2])) {
+            None => writeln!(out, "{line} -> badheight").unwrap(),
+            Some(block) => match sys.firm_tx.try_send(Box::new(block)) {
+                Ok(()) => {
+                    sys.firm_mirror.push_back(num(toks[1]));
+                    writeln!(out, "{line} -> sent").unwrap();
+                }
+                Err(_) => writeln!(out, "{line} -> full").unwrap(),
+            },
+        },
+        // one-shot fault of the execution API: the next ExecuteBlock answers number + delta
+        "bad" => {
+            rollup.inner.lock().unwrap().fault = Some(num(toks[1]));
+            writeln!(out, "{line} -> set").unwrap();
+        }
+        "run" => {
+            let res = sys_run(sys).await;
+            let took = |mirror: &mut VecDeque<u64>, now: usize| {
+                let mut v = Vec::new();
+                while mirror.len() > now {
+                    v.push(mirror.pop_front().unwrap().to_string());
+                }
+                v.join(";")
+            };
+            let tf = took(&mut sys.firm_mirror, chan_len(&sys.firm_tx));
+            let ts = took(&mut sys.soft_mirror, chan_len(&sys.soft_tx));
+            writeln!(out, "run -> {res} tookf={tf} tooks={ts}").unwrap();
+            for l in rollup.inner.lock().unwrap().log.drain(..) {
+                writeln!(out, "{l}").unwrap();
+            }
+            alive = res == "ok";
+            if alive {
+                writeln!(out, "{}", sys.state_line()).unwrap();
+            }
+        }
+        other => panic!("unknown sys op {other}"),
+    }
+    alive
+}
+
+// ------------------------------------------------------------------------------------------
+// driver
+// ------------------------------------------------------------------------------------------
+
+enum Case {
+    None,
+    Cache(Option<BlockCache<Dummy>>),
+    Fn,
+    Sys(Option<Sys>),
+}
+
+#[tokio::test]
+async fn drive() {
+    let Ok(path) = std::env::var("VERIF_IN") else {
+        return;
+    };
+    let input = std::fs::read_to_string(path).unwrap();
+    let mut out = String::new();
+
+    // the execution API server, shared by all cases
+    let rollup = Arc::new(Rollup::default());
+    let listener = tokio::net::TcpListener::bind("127.0.0.1:0").await.unwrap();
+    let uri = format!("http://{}", listener.local_addr().unwrap());
+    {
+        let rollup = rollup.clone();
+        tokio::spawn(async move {
+            tonic::transport::Server::builder()
+                .add_service(
+                    raw::execution_service_server::ExecutionServiceServer::from_arc(rollup),
+                )
+                .serve_with_incoming(tokio_stream::wrappers::TcpListenerStream::new(listener))
+                .await
+                .unwrap();
+        });
+    }
+    let (metrics, _handle) = telemetry::metrics::ConfigBuilder::new()
+        .set_global_recorder(false)
+        .build::<Metrics>(&())
+        .unwrap();
+    let metrics: &'static Metrics = Box::leak(Box::new(metrics));
+    let blocks = BlockFactory::new();
+
+    let mut case = Case::None;
+    for line in input.lines() {
+        let toks: Vec<&str> = line.split_whitespace().collect();
+        let Some(&cmd) = toks.first() else { continue };
+        if cmd == "case" {
+            writeln!(out, "{}", toks.join(" ")).unwrap();
+            case = match toks[1] {
+                "cache" => {
+                    let r = SequencerHeight::try_from(num(toks[2]))
+                        .ok()
+                        .and_then(|h| BlockCache::<Dummy>::with_next_height(h).ok());
+                    writeln!(out, "new -> {}", if r.is_some() { "ok" } else { "err" }).unwrap();
+                    Case::Cache(r)
+                }
+                "fn" => Case::Fn,
+                "sys" => Case::Sys(sys_init(&toks, &rollup, &uri, metrics, &mut out).await),
+                other => panic!("unknown case kind {other}"),
+            };
+            continue;
+        }
+        match &mut case {
+            Case::None => panic!("op before case"),
+            Case::Fn => fn_op(&toks, &mut out),
+            Case::Cache(None) | Case::Sys(None) => writeln!(out, "{} -> dead", toks.join(" ")).unwrap(),
+            Case::Cache(Some(cache)) => {
+                let line = toks.join(" ");
+                match cmd {
+                    "ins" => match SequencerHeight::try_from(num(toks[1])) {
+                        Ok(_) => {
+                            let r = insert_class(cache.insert(Dummy(num(toks[1]))));
+                            writeln!(out, "{line} -> {r}").unwrap();
+                        }
+                        Err(_) => writeln!(out, "{line} -> badheight").unwrap(),
+                    },
+                    "pop" => match catch_unwind(AssertUnwindSafe(|| cache.pop())) {
+                        Ok(Some(b)) => writeln!(out, "{line} -> {}", b.0).unwrap(),
+                        Ok(None) => writeln!(out, "{line} -> none").unwrap(),
+                        Err(_) => writeln!(out, "{line} -> panic").unwrap(),
+                    },
+                    "drop" => match SequencerHeight::try_from(num(toks[1])) {
+                        Ok(h) => {
+                            cache.drop_obsolete(h);
+                            writeln!(out, "{line} -> ok").unwrap();
+                        }
+                        Err(_) => writeln!(out, "{line} -> badheight").unwrap(),
+                    },
+                    "next" => writeln!(out, "{line} -> {}", cache.next_height_to_pop()).unwrap(),
+                    other => panic!("unknown cache op {other}"),
+                }
+            }
+            Case::Sys(Some(sys)) => {
+                if !sys_op(&toks, sys, &rollup, &blocks, &mut out).await {
+                    case = Case::Sys(None);
+                }
+            }
+        }
+    }
+    std::fs::write(std::env::var("VERIF_OUT").expect("VERIF_OUT"), out).unwrap();
+}
